@@ -107,7 +107,7 @@ def main(argv=None):
         if a.only and a.only not in ex['name']:
             continue
         extra.append(run_extra(a.prop, ex, tier, seed))
-    return report(a.prop, spec, tier, seed, results, extra, t0, common)
+    return report(a.prop, spec, tier, seed, results, extra, t0, common, partial=bool(a.only))
 
 
 def run_extra(prop, ex, tier, seed):
@@ -163,7 +163,7 @@ def write_replay(prop, fn_result, vc):
     return p
 
 
-def report(prop, spec, tier, seed, results, extra, t0, common):
+def report(prop, spec, tier, seed, results, extra, t0, common, partial=False):
     from pyvc import replay
     kf = [k for k in known_findings() if k.get('property') == prop and k.get('status') == 'known']
     violations = []
@@ -278,7 +278,8 @@ def report(prop, spec, tier, seed, results, extra, t0, common):
           'assumptions': IDEALISATIONS + spec.get('assumptions', []),
           'wall_s': round(time.time() - t0, 2), 'violations': len(out_lines)}
     os.makedirs(os.path.join(OUT, 'evidence'), exist_ok=True)
-    json.dump(ev, open(os.path.join(OUT, 'evidence', f'{prop}.json'), 'w'), indent=1)
+    # a run restricted with --only (development aid) does not replace the evidence of the full check
+    json.dump(ev, open(os.path.join(OUT, 'evidence', f'{prop}.json' if not partial else f'.partial_{prop}.json'), 'w'), indent=1)
     print(f'{prop}: {n_dis}/{n_ob} obligations discharged, {len(fns)} contracts, {len(bounded)} bounded/syntactic checks, '
           f'{len(out_lines)} violations, {len(undecided)} undecided, {len(crashes)} checker errors, '
           f'{ev["wall_s"]}s')
